@@ -195,9 +195,15 @@ def defects(base):
             yield "length-negative", replaced(position, with_cell(4, "-1")), position + 1
             for value in ("-1", "-1...", "...-1", "-3...-1", "-1...5"):
                 yield "length-negative:no-example", replaced(position, row[:2] + [""] + row[3:4] + [value] + row[5:]), position + 1
+        if fmt != "fixed" and field_type not in ("Constant", "Integer"):
+            # items that overlap or merely share one limit value (limits are inclusive); a later item that encloses an earlier one
+            # ("3...5, 1...9") is left out: the statement does not say what happens to it (the implementation lets it pass)
+            for value in ("1...5, 3...9", "1...9, 3...5", "1...5, 5...9", "4, 4", "...6, 6...", "2..., 1...2"):
+                yield "length-overlapping-items", replaced(position, row[:2] + [""] + row[3:4] + [value] + row[5:]), position + 1
         rule_defects = {
-            "Integer": [("integer-rule-letters", "abc"), ("integer-rule-lower-greater-upper", "9...1")],
-            "Decimal": [("decimal-rule-letters", "abc")],
+            "Integer": [("integer-rule-letters", "abc"), ("integer-rule-lower-greater-upper", "9...1"), ("integer-rule-overlapping-items", "0...5, 3...9"),
+                        ("integer-rule-overlapping-items", "0...5, 5...9"), ("integer-rule-overlapping-items", "0...9, 7"), ("integer-rule-overlapping-items", "5..., ...5")],
+            "Decimal": [("decimal-rule-letters", "abc"), ("decimal-rule-overlapping-items", "0...5.5, 5.5...9"), ("decimal-rule-overlapping-items", "0...9, 1.5...2")],
             "Choice": [("choice-trailing-comma", '"a",'), ("choice-double-comma", '"a",,"b"'), ("choice-missing-comma", '"a" "b"'), ("choice-without-choices-not-empty", "")],
             "Constant": [("constant-two-tokens", '"K" "L"'), ("constant-empty-rule-not-marked-empty", "")],
             "RegEx": [("regex-unbalanced", "(a")],
